@@ -499,6 +499,181 @@ fn sweep(idx: u64, src: &str, elc: Option<char>, ndev: usize, low: &[u8; 128], a
     }
 }
 
+
+// ---------------------------------------------------------------- VM level: \endlinechar and \catcode through the stdlib glue
+
+/// A program for the real VM (vtex::HState, real built-ins). Its first tokens define `\g` whose body
+/// changes the configuration and ends in the harness primitive `\capture`; everything the scanner
+/// delivers after the second `\g` (the call) up to `\END` is recorded token by token.
+#[derive(Clone, Debug)]
+struct VmCase {
+    program: String,
+    /// end-line character in force after `\g` (None = inactive)
+    elc1: Option<char>,
+    /// category codes changed by `\g`
+    over1: Vec<(char, u8)>,
+}
+impl VmCase {
+    fn json(&self) -> Value {
+        json!({"kind": "vm", "program": self.program, "elc1": self.elc1.map(|c| c as u32), "over1": self.over1.iter().map(|(c, k)| json!([*c as u32, k])).collect::<Vec<_>>()})
+    }
+    fn from_json(v: &Value) -> VmCase {
+        VmCase {
+            program: v["program"].as_str().unwrap_or("").to_string(),
+            elc1: v["elc1"].as_u64().and_then(|u| char::from_u32(u as u32)),
+            over1: v["over1"].as_array().map(|a| a.iter().map(|p| (char::from_u32(p[0].as_u64().unwrap() as u32).unwrap(), p[1].as_u64().unwrap() as u8)).collect()).unwrap_or_default(),
+        }
+    }
+}
+
+struct VmExpected {
+    out: String,
+    /// an invalid character (or an unmatched `}` made by the end-line character) is met: an error
+    error: bool,
+    captured: usize,
+    hex_form_seen: bool,
+    driver_ok: bool,
+}
+
+/// The model side: the scanner runs over the whole program with the initial configuration until the
+/// call of `\g` has been delivered, then with the new one (the change takes effect from the next token
+/// on; lines loaded afterwards get the new end-line character, §360).
+fn vm_expected(case: &VmCase, low: &[u8; 128], hex: bool, switch: bool) -> VmExpected {
+    let cfg0 = scan::Config { table: Table::from_low(*low), end_line_char: Some('\r'), hex };
+    let cfg1 = if switch { scan::Config { table: Table { low: *low, over: case.over1.clone() }, end_line_char: case.elc1, hex } } else { cfg0.clone() };
+    let mut s = scan::Source::new(&case.program);
+    let mut e = VmExpected { out: String::new(), error: false, captured: 0, hex_form_seen: false, driver_ok: false };
+    let mut seen_g = 0;
+    while seen_g < 2 {
+        match s.next(&cfg0) {
+            Item::End => return e,
+            Item::Tok(t) if t.v == TokV::Cs("g".into()) => seen_g += 1,
+            _ => {}
+        }
+    }
+    e.driver_ok = true;
+    let mut capturing = true;
+    let mut depth = 0i64;
+    loop {
+        let t = match s.next(&cfg1) {
+            Item::End => break,
+            Item::NewLine => continue,
+            Item::Invalid { .. } => {
+                e.error = true;
+                break;
+            }
+            Item::Tok(t) => t.v,
+        };
+        if capturing {
+            match &t {
+                TokV::Cs(n) if n == "END" => capturing = false,
+                // vtex::capture prints `\name`, `c/cat`, and an active character as the bare character
+                TokV::Ch(c, scan::ACTIVE_CHAR) => e.out.push_str(&format!("[{c}]")),
+                t => e.out.push_str(&format!("[{}]", t.exact())),
+            }
+            if capturing {
+                e.captured += 1;
+            }
+        } else {
+            // after \END the VM executes what is left (only what the end-line character adds to that line)
+            match t {
+                TokV::Ch(_, scan::LEFT_BRACE) => depth += 1,
+                TokV::Ch(_, scan::RIGHT_BRACE) => {
+                    if depth == 0 {
+                        e.error = true;
+                        break;
+                    }
+                    depth -= 1;
+                }
+                TokV::Ch(c, scan::ACTIVE_CHAR) => e.out.push_str(&format!("<undef {c}>")),
+                TokV::Ch(c, _) => e.out.push(c),
+                TokV::Cs(n) => e.out.push_str(&format!("<undef \\{n}>")),
+            }
+        }
+    }
+    e.hex_form_seen = s.ev.hex_form_seen;
+    e
+}
+
+fn judge_vm(idx: u64, case: &VmCase, low: &[u8; 128], acc: &mut Acc) {
+    acc.eval();
+    let want = vm_expected(case, low, true, true);
+    if !want.driver_ok {
+        acc.skipped += 1;
+        return;
+    }
+    if want.captured >= 1 {
+        acc.nontrivial();
+    }
+    // vacuity: does the change matter for what is delivered?
+    let unchanged = vm_expected(case, low, true, false);
+    if unchanged.out != want.out || unchanged.error != want.error {
+        acc.count("vm_configuration_change_alters_the_tokens");
+    }
+    if case.elc1 == Some('\0') && !case.over1.is_empty() {
+        acc.count("vm_endlinechar_zero_visible");
+    }
+    acc.class(&format!("vm captured{} {}", want.captured.min(8), if want.error { "error" } else { "end" }));
+    let show_want = |w: &VmExpected| if w.error { format!("{} !<an error>", w.out) } else { w.out.clone() };
+    let got = match vtex::run_fresh(&case.program) {
+        vtex::Outcome::Done(r) => r,
+        vtex::Outcome::Cutoff => {
+            acc.cutoffs += 1;
+            return;
+        }
+        vtex::Outcome::Panic(p) => {
+            acc.fail(idx, case.json(), show_want(&want), p.describe(), "the VM panicked");
+            return;
+        }
+    };
+    // an invalid character is an error in TeX (§346, then it goes on) and a fatal error in the crate:
+    // the tokens before it and the fact of an error are compared
+    let agrees = |w: &VmExpected| got.out == w.out && got.err.is_some() == w.error;
+    if agrees(&want) {
+        return;
+    }
+    if want.hex_form_seen && agrees(&vm_expected(case, low, false, true)) {
+        acc.known("D4", idx, || {
+            let mut j = case.json();
+            j["expected_tex"] = json!(show_want(&want));
+            j["observed"] = json!(got.show());
+            j
+        });
+        return;
+    }
+    acc.fail(idx, case.json(), show_want(&want), got.show(), "token value differs: tokens delivered through the VM after \\endlinechar / \\catcode changed");
+}
+
+/// (-2147483648 is not a TeX integer: scan_int §445 reports "Number too big" for the magnitude 2147483648, and so does the crate)
+const VM_ELC_VALUES: [i64; 19] = [-2147483647, -2, -1, 0, 1, 9, 10, 13, 32, 37, 92, 94, 97, 126, 127, 128, 255, 256, 2147483647];
+const VM_ELC_LINES: [&str; 6] = ["ab", "\\foo", "\\", "a  ", "", "a b"];
+const VM_CAT_CHARS: [char; 9] = ['\0', '\u{7f}', 'é', 'a', '\\', ' ', '%', '^', '\r'];
+const VM_CAT_RESTS: [&str; 7] = ["@", "b@", "@b", "b@ @b", "\\@", "\\b@ c", "@@+"];
+
+/// `\endlinechar=N` (and, for 0 <= N < 128, `\catcode N=K`) then one or two menu lines, then `\END`.
+fn vm_elc_case(n: i64, k: Option<u8>, lines: &[&str]) -> VmCase {
+    let in_range = (0..128).contains(&n);
+    let c = if in_range { char::from_u32(n as u32) } else { None };
+    let mut body = format!("\\endlinechar={n} ");
+    let mut over1 = vec![];
+    if let (Some(c), Some(k)) = (c, k) {
+        body.push_str(&format!("\\catcode {n}={k} "));
+        over1.push((c, k));
+    }
+    let mut program = format!("\\def\\g{{{body}\\capture}}\\g\n");
+    for l in lines {
+        program.push_str(l);
+        program.push('\n');
+    }
+    program.push_str("\\END\n");
+    VmCase { program, elc1: c, over1 }
+}
+fn vm_cat_case(c: char, k: u8, rest: &str) -> VmCase {
+    // the first line ends in a comment so that its end delivers nothing to the VM
+    let program = format!("\\def\\g{{\\catcode {}={k} \\capture}}%\n\\g {}\n\\END\n", c as u32, rest.replace('@', &c.to_string()));
+    VmCase { program, elc1: Some('\r'), over1: vec![(c, k)] }
+}
+
 // ---------------------------------------------------------------- model self-validation
 
 enum E {
@@ -654,11 +829,16 @@ fn main() {
     ctx.assume("position convention (DESIGN C03): a control sequence is positioned at its escape character, a character made by ^^x / ^^xy at the last character of the sequence (the buffer slot rewritten in place, pinned by the crate's own tests), tokens made from the end-line character at column = length of the right-trimmed line; line text = the untrimmed text of the source line");
     ctx.assume("the category code table is an input: plain-TeX table of the crate (CatCode::PLAIN_TEX_DEFAULTS, 'other' above 127) with at most two characters reassigned; the reassigned characters range over the characters of the source, the end-line character and the characters a ^^x reduction of the source can produce");
     ctx.assume("dynamic configurations: a change takes effect at the next call of Lexer::next, the end-line character of a line is the one in force when the line is loaded (§360), which happens in the call that first needs the line");
+ctx.assume("VM families: \\endlinechar=N appends character N for 0 <= N <= 127 and nothing otherwise (the crate's documented range; TeX §360 also appends for 128..255 - the statement's quantifier is ASCII); an invalid character met by the VM is an error in TeX and a fatal error in the crate: the tokens before it and the fact of an error are compared");
     ctx.assume("after an invalid character TeX reports an error and goes on scanning (§346); the lexer is driven on after Result::InvalidCharacter and must deliver the remaining tokens");
     ctx.assume("\\endlinechar ranges over {none, CR, a, ^, space, %, \\} in the string families and over every ASCII character in elc-sweep; characters produced by the two-hex-digit form are the Unicode scalar values 0..=255");
 
     if let Some((_fam, case)) = ctx.replay_case() {
         let mut acc = Acc::default();
+        if case["kind"] == "vm" {
+            judge_vm(0, &VmCase::from_json(&case), &low, &mut acc);
+            ctx.finish_replay(acc);
+        }
         let case = Case::from_json(&case);
         let e = model_side(&case, &low);
         judge(0, &case, &e, &mut acc);
@@ -693,6 +873,37 @@ fn main() {
         });
     }
 
+    // VM level: the stdlib glue (endlinechar.rs, codes.rs, vm/streams.rs) between the primitives and the lexer
+    {
+        // (N, K): K = None keeps the category code of character N
+        let mut cfgs: Vec<(i64, Option<u8>)> = vec![];
+        for n in VM_ELC_VALUES {
+            cfgs.push((n, None));
+            if (0..128).contains(&n) {
+                cfgs.push((n, Some(11)));
+                cfgs.push((n, Some(12)));
+            }
+        }
+        let nl = VM_ELC_LINES.len() as u64;
+        let per = nl + nl * nl;
+        let c = &cfgs;
+        ctx.family("vm-endlinechar", &format!("real VM (vtex::HState, real built-ins): \\endlinechar=N for N in {VM_ELC_VALUES:?}, character N left as it is or made a letter / other through \\catcode (0 <= N < 128), then every sequence of 1 or 2 lines from {VM_ELC_LINES:?} and a line \\END; every delivered token recorded by \\capture"), cfgs.len() as u64 * per, |i, acc| {
+            let (n, k) = c[(i / per) as usize];
+            let j = i % per;
+            let lines: Vec<&str> = if j < nl { vec![VM_ELC_LINES[j as usize]] } else { vec![VM_ELC_LINES[((j - nl) / nl) as usize], VM_ELC_LINES[((j - nl) % nl) as usize]] };
+            let case = vm_elc_case(n, k, &lines);
+            judge_vm(i, &case, &low, acc);
+            if i % 211 == 5 {
+                acc.sample(i, || case.json());
+            }
+        });
+        let nr = VM_CAT_RESTS.len() as u64;
+        ctx.family("vm-catcode", &format!("real VM: \\catcode c=k for c in {VM_CAT_CHARS:?}, k in 0..=15, executed in the middle of a line whose rest is one of {VM_CAT_RESTS:?} (@ = the character); the change takes effect from the next token on"), VM_CAT_CHARS.len() as u64 * 16 * nr, |i, acc| {
+            let d = vcore::digits(i, &[VM_CAT_CHARS.len() as u64, 16, nr]);
+            let case = vm_cat_case(VM_CAT_CHARS[d[0] as usize], d[1] as u8, VM_CAT_RESTS[d[2] as usize]);
+            judge_vm(i, &case, &low, acc);
+        });
+    }
     // every ASCII end-line character
     {
         let len = ctx.pick(3u32, 4u32);
@@ -761,6 +972,8 @@ fn main() {
 
     ctx.require("caret_at_line_end", "a ^^ sequence ends at the last character of its line (end-line character included)");
     ctx.require("config_changed_before_end", "the configuration changed while input was left (dynamic family)");
+    ctx.require("vm_configuration_change_alters_the_tokens", "a \\catcode / \\endlinechar assignment executed by the VM changes the tokens delivered afterwards");
+    ctx.require("vm_endlinechar_zero_visible", "\\endlinechar=0 with character 0 made a letter or other");
     ctx.require("caret_in_name", "a ^^ sequence is reduced inside a control sequence name");
     ctx.require("caret_recursive", "the product of a ^^ reduction starts a further ^^ sequence");
     ctx.require("nonascii_before_token", "a traced token stands after a non-ASCII character of the source");
